@@ -8,6 +8,7 @@ import (
 	"fmt"
 	"math/big"
 	"os"
+	"path/filepath"
 	"strings"
 	"testing"
 	"time"
@@ -58,8 +59,17 @@ type seqResult struct {
 func runSeq(w *world, cfgName string, cfg core.TxPoolConfig, start string, seq []symbol) seqResult {
 	var r seqResult
 	c := &chain{w: w, head: w.heads[start]}
+	if cfgName == "journal" {
+		dir, err := os.MkdirTemp(os.Getenv("VERIF_SCRATCH"), "c15journal")
+		if err != nil {
+			ev.Broken("journal dir: %v", err)
+		}
+		defer os.RemoveAll(dir)
+		cfg.Journal = filepath.Join(dir, "transactions.rlp")
+		cfg.Rejournal = time.Hour
+	}
 	p := core.NewTxPool(cfg, w.env.Config, c)
-	defer p.Stop()
+	defer func() { p.Stop() }()
 	gasPrice := big.NewInt(1)
 	signer := w.env.Signer
 	for oi, sy := range seq {
@@ -91,6 +101,11 @@ func runSeq(w *world, cfgName string, cfg core.TxPoolConfig, start string, seq [
 			if err != nil && old != nil && old.Hash() != tx.Hash() && bumpOK(old, tx, cfg.PriceBump) && strings.Contains(err.Error(), "replacement transaction underpriced") {
 				r.fails = append(r.fails, fmt.Sprintf("op %d %s: replacement with a sufficient price bump refused as underpriced", oi, sy.Arg))
 			}
+		case "restart":
+			// the node restarts: the pool is rebuilt on the same head from its journal of local transactions
+			p.Stop()
+			p = core.NewTxPool(cfg, w.env.Config, c)
+			gasPrice = big.NewInt(1)
 		case "price":
 			gp := new(big.Int).Mul(big.NewInt(gwei), big.NewInt(105))
 			if sy.Arg == "0" {
@@ -268,7 +283,11 @@ func TestCheck(t *testing.T) {
 			start = "H0"
 		}
 		w := newWorld()
-		r := runSeq(w, cfgName, poolConfigs()[cfgName], start, seq)
+		pc, ok := poolConfigs()[cfgName]
+		if !ok { // "journal" is the default configuration plus a journal file
+			pc = poolConfigs()["default"]
+		}
+		r := runSeq(w, cfgName, pc, start, seq)
 		if len(r.fails) > 0 {
 			fmt.Println("REPRODUCED", r.fails)
 			run.Violate(ev.Violation{Scenario: d.Scenario, Oracle: d.Oracle, CaseID: d.CaseID, Detail: d.Detail})
@@ -362,6 +381,55 @@ func seqWorker(shard, nsh int) {
 				break
 			}
 			idx[i] = 0
+			i--
+		}
+		if i < 0 {
+			break
+		}
+	}
+	// journal family: a pool that journals its local transactions, with the node restarting in between
+	jalpha := []symbol{{"addl", "A0p100"}, {"addl", "A0p110"}, {"addl", "A2p100"}, {"addl", "B0p100"}, {"addr", "A1p100"},
+		{"head", "H1"}, {"head", "H1x"}, {"price", "105"}, {"restart", ""}}
+	jd := d + 1
+	jcfg := cfgs["default"]
+	jidx := make([]int, jd)
+	for jn := 0; !capped; jn++ {
+		if jn%nsh == shard {
+			seq := make([]symbol, jd)
+			hasRestart := false
+			for i, k := range jidx {
+				seq[i] = jalpha[k]
+				hasRestart = hasRestart || jalpha[k].Kind == "restart"
+			}
+			if hasRestart {
+				r := runSeq(w, "journal", jcfg, "H0", seq)
+				res.Evals++
+				res.Counters["journal_sequences"]++
+				if len(r.fails) > 0 {
+					oc := oracleOf(r.fails[0])
+					if !sigSeen["journal/"+oc] {
+						sigSeen["journal/"+oc] = true
+						if r2 := runSeq(w, "journal", jcfg, "H0", seq); len(r2.fails) == 0 {
+							ev.Broken("C15 verdict flipped on re-run: %v", r.fails)
+						}
+						res.Violations = append(res.Violations, ev.Violation{Scenario: "sequential", Oracle: oc, CaseID: "journal",
+							Detail: map[string]interface{}{"seq": seq, "config": "journal", "start": "H0", "fails": r.fails, "trace": r.trace}})
+					}
+				} else {
+					classes[hash64("journal|"+r.trace)] = true
+				}
+			}
+			if time.Now().After(deadline) {
+				capped = true
+			}
+		}
+		i := jd - 1
+		for i >= 0 {
+			jidx[i]++
+			if jidx[i] < len(jalpha) {
+				break
+			}
+			jidx[i] = 0
 			i--
 		}
 		if i < 0 {
